@@ -83,7 +83,7 @@ def mixin_class_method(ufunc, rhs=None, transpose=True):
             # make a copy of rhs, we will edit it later
             method._awkward_mixin = (ufunc, set(rhs), transposed)
         else:
-            method._awkward_mixin = (ufunc, rhs, None)
+            method._awkward_mixin = (ufunc, None if rhs is None else set(rhs), None)
         return method
 
     return register
